@@ -150,36 +150,94 @@ def cmp_code(f):
     return 5
 
 
-def select_concepts(case, ctxs):
+def concepts_for(case, sel, K):
+    """The concept objects one selector picks from the context object K."""
     from fcapy.lattice import ConceptLattice
     from fcapy.lattice.formal_concept import FormalConcept
     from fcapy.lattice.pattern_concept import PatternConcept
+    from fcapy.algorithms import concept_construction as cca
     cls = PatternConcept if case['pattern'] else FormalConcept
+    kind = sel[0]
+    if kind in ('lat', 'cbo'):
+        _, k, arg, seed, cap = sel
+        try:
+            if kind == 'lat':
+                cs = list(ConceptLattice.from_context(K, is_monotone=True) if arg else ConceptLattice.from_context(K))
+            else:       # both mining paths of close_by_one: arg = n_projections_to_binarize (0 -> objectwise)
+                cs = list(cca.close_by_one(K, n_projections_to_binarize=arg))
+        except Exception:  # noqa  (mining is C02/C14's business: D16, D17)
+            cs = []
+        r = random.Random(seed)
+        if len(cs) > cap:
+            cs = r.sample(cs, cap)
+        if kind == 'cbo':   # ... each with its from_objects twin
+            cs = [x for c in cs for x in (c, cls.from_objects(list(c.extent_i), K))]
+        return cs
+    _, k, objs, by_name = sel[:4]
+    is_extent = bool(sel[4]) if len(sel) > 4 else False
+    arg = [nm(x) for x in objs] if by_name else list(objs)
+    return [cls.from_objects(arg, K, is_extent=is_extent)]
+
+
+def warm_up(K, pattern):
+    """Fill whatever a context object may cache."""
+    from fcapy.lattice import ConceptLattice
+    K.hash_fixed()
+    try:
+        ConceptLattice.from_context(K)
+    except Exception:  # noqa
+        pass
+    K.hash_fixed()
+    if pattern:
+        K.data
+        K.write_json()
+    else:
+        K.write_json()
+
+
+def mutate(K, old, new, pattern, how):
+    """Turn the context object K (content `old`) into content `new` through the public setters."""
+    if pattern:
+        if old['data'] != new['data']:
+            values = [[cell_value(x) for x in row] for row in new['data']]
+            if how == 'column':     # in-place correction of each changed column
+                for j in range(len(new['ptypes'])):
+                    if [r[j] for r in old['data']] != [r[j] for r in new['data']]:
+                        K.pattern_structures[j].data = [row[j] for row in values]
+            else:                   # replace all pattern structures through the setter
+                K.pattern_structures = K.assemble_pattern_structures(values, K.pattern_types)
+    if old['onames'] != new['onames']:
+        K.object_names = [nm(k) for k in new['onames']]
+    if old['anames'] != new['anames']:
+        K.attribute_names = [nm(k) for k in new['anames']]
+    return K
+
+
+def select_concepts(case, ctxs_in):
+    """[(ctx index, concept object)].  With case['mutate'], contents 0 and 1 are two successive states of
+    ONE context object: concepts of content 0 are derived first, then the object is changed in place."""
+    ctxs = {}
     out = []
-    for sel in case['sel']:
-        K = ctxs[sel[1]]
-        if sel[0] == 'lat':
-            _, k, mono, seed, cap = sel
-            try:
-                L = ConceptLattice.from_context(K, is_monotone=True) if mono else ConceptLattice.from_context(K)
-                cs = list(L)
-            except Exception:  # noqa  (lattice construction is C02/C14's business)
-                cs = []
-            r = random.Random(seed)
-            if len(cs) > cap:
-                cs = r.sample(cs, cap)
-            out += [(k, c) for c in cs]
+    mut = case.get('mutate')
+    for k in sorted(set(sel[1] for sel in case['sel'])):
+        if mut and k == 1:
+            K = mutate(ctxs[0], case['ctxs'][0], case['ctxs'][1], case['pattern'], mut)
         else:
-            _, k, objs, by_name = sel
-            arg = [nm(x) for x in objs] if by_name else list(objs)
-            out.append((k, cls.from_objects(arg, K)))
+            K = make_ctx(case['ctxs'][k])
+            if mut and k == 0:
+                warm_up(K, case['pattern'])
+        ctxs[k] = K
+        for sel in case['sel']:
+            if sel[1] == k:
+                out += [(k, c) for c in concepts_for(case, sel, K)]
+                if mut:
+                    warm_up(K, case['pattern'])
     return out
 
 
 def run_cmp(case):
-    ctxs = [make_ctx(c) for c in case['ctxs']]
-    hashes = [K.hash_fixed() for K in ctxs]
-    sel = select_concepts(case, ctxs)
+    fresh = [make_ctx(c).hash_fixed() for c in case['ctxs']]
+    sel = select_concepts(case, case['ctxs'])
     concepts = []
     for k, c in sel:
         mono = bool(getattr(c, 'is_monotone', False))
@@ -190,11 +248,14 @@ def run_cmp(case):
             row = [cmp_code(lambda: a == b), cmp_code(lambda: a != b), cmp_code(lambda: a <= b),
                    cmp_code(lambda: a < b), cmp_code(lambda: a >= b), cmp_code(lambda: a > b)]
             try:
-                row.append(1 if hash(a) == hash(b) else 0)
+                same_hash = hash(a) == hash(b)
+                if row[0] == 1:     # equal concepts: one element of a set, one key of a dict
+                    same_hash = same_hash and len({a, b}) == 1 and (b in {a: 0}) and (a in {b: 0})
+                row.append(1 if same_hash else 0)
             except Exception:  # noqa
                 row.append(5)
             res.append(row)
-    return {'concepts': concepts, 'res': res, 'hashes': hashes}
+    return {'concepts': concepts, 'res': res, 'fresh': fresh}
 
 
 def name_ids(names):
@@ -303,7 +364,7 @@ def to_coq(case, out):
     if out[0] != 'ok':
         # the whole case blew up in the harness or the library: a case no model accepts
         if kind == 'cmp':
-            return 'CmpCase %s [] [mk_cc 0 0%%Z false []] []' % coq(bool(case['pattern']))
+            return 'CmpCase %s [] [] [mk_cc 0 0%%Z false []] []' % coq(bool(case['pattern']))
         if kind == 'fromobj':
             return 'FromObjCase BLists %s 0%%Z [(ByIndex [], false, false, FErr 11)]' % fctx_term(case['ctx'])
         if kind == 'pfromobj':
@@ -315,8 +376,8 @@ def to_coq(case, out):
     if kind == 'cmp':
         cs = '[' + '; '.join('mk_cc %d %s %s %s' % (k, zlit(h if isinstance(h, int) else -1), coq(bool(m)),
                                                    coq(e if is_idx_list(e) else [])) for k, h, m, e in o['concepts']) + ']'
-        return 'CmpCase %s [%s] %s %s' % (coq(bool(case['pattern'])), '; '.join(ctx_term(c) for c in case['ctxs']),
-                                          cs, coq(o['res']))
+        return 'CmpCase %s [%s] %s %s %s' % (coq(bool(case['pattern'])), '; '.join(ctx_term(c) for c in case['ctxs']),
+                                             zl(o['fresh']), cs, coq(o['res']))
     if kind in ('fromobj', 'pfromobj'):
         items = []
         for (by_name, objs, e, m), r in zip(case['items'], o['outs']):
